@@ -142,7 +142,6 @@ theorem entry_step {cfg : Config} {s : St} {last : Last} {acc : List Acc} {l : L
   have hinv := hsim.inv
   have hn := hinv.nodup
   have hn' : NodupKeys (step s r).procs := (step_sim hsim r).inv.nodup
-  have hr : s.cfg.reuse = false := hlife.tab.reuse
   -- records that add no recorded sample
   have none_case : List.Perm (Psi (step s r)) (Psi s) →
       (∀ pid tid t km pe ip chain, r ≠ .sample pid tid t km pe ip chain) →
